@@ -179,15 +179,31 @@ def with_target_envs(cases):
     return cases
 
 
+def planted_cwd():
+    """the working directory of every driver run: it holds files under the include paths the families use (with other contents), which the
+    generator has no business reading"""
+    d = os.path.join(WORK, "cwd_planted")
+    if not os.path.isdir(os.path.join(d, "shaders")):
+        os.makedirs(os.path.join(d, "shaders"), exist_ok=True)
+        os.makedirs(os.path.join(d, "dir"), exist_ok=True)
+        for rel in ("shader.wgsl", "a.wgsl", "b.wgsl", "shaders/main.wgsl", "dir/a.wgsl"):
+            open(os.path.join(d, rel), "w").write("// planted: not the shader\n@compute @workgroup_size(1) fn planted() {}\n")
+    return d
+
+
 def _vdriver_once(cpath, tpath, keep, detail, outdir, extra, timeout):
-    cmd = [VDRIVER, "gen", cpath, tpath, "--detail", str(detail)]
+    cmd = [VDRIVER, "gen", os.path.abspath(cpath), os.path.abspath(tpath), "--detail", str(detail)]
     if keep is not None:
         cmd += ["--keep", ",".join(keep)]
     if outdir:
-        cmd += ["--out", outdir]
+        cmd += ["--out", os.path.abspath(outdir)]
     if extra:
         cmd += extra
-    return run(cmd, timeout=timeout, env=build_script_env())
+    return run(cmd, timeout=timeout, env=dict(build_script_env(), **VDRIVER_ENV), cwd=planted_cwd())
+
+
+# extra environment for the next driver runs (e.g. VERIF_DELETED_CWD)
+VDRIVER_ENV = {}
 
 
 def run_vdriver(cases, tag, keep=None, detail=0, outdir=None, extra=None, case_timeout=None):
